@@ -28,6 +28,8 @@ def run(res):
     wc.check_and_replay(res, 'c02_processors', K2, own | {'processors'}, depth_all=0, walks=1000)
     wc.trace_validate(res, 'c02_recorded', wc.big({'create', 'create2', 'add', 'remove', 'delete', 'process', 'clear', 'toggle', 'proc', 'fault', 'reentrant'}), 2000 if th else 150, 60)
     wc.repo_tests_validate(res)
+    if th:
+        wc.simulate_big(res, salt=2)
     for sw, inv in [('ImmediateDeleteNotifies', ('RegisteredIffAttached', 'MarksHaveRows')), ('ClearKeepsSelf', ('WorldListensToItself',)),
                     ('RelayOnlyDeclared', ('NoBadRelay',)), ('CreateNotifiesReplaced', ('RegisteredIffAttached',))]:
         wc.switch_run(res, 'c02', K, sw, inv)
